@@ -364,9 +364,11 @@ two calls reaches — i.e. "exactly what a plain registry predicts" was false fo
 calls (findings `race:unregister-gc-vs-register`, `race:register-vs-topic-delete`, both FIXED; replayed on
 the real daemon by harness/e4 `TestVerifE4Races` on every run). Which shape the CURRENT tree has is not a
 constant of this file: `Nsq.Tie.Registry.treeAtomic`, `readersAtomic`, `tombstoneAtomic` are computed from the
-regenerated facts, and the theorems `…_tree` below are stated over them (audit B12). Still open: the READERS
-`GET /lookup`, `GET /nodes` are several critical sections (audit B5; repair fixes/F37), and the tombstone marks
-are written with no lock held (audit B6; repair fixes/F38). -/
+regenerated facts, and the theorems `…_tree` below are stated over them (audit B12). The READERS `GET /lookup`,
+`GET /nodes` were several critical sections (audit B5) until commit 682420a (F37), and the tombstone marks were written
+with no lock held (audit B6) until commit 415122f (F38): both are committed, the ties accept only the repaired shapes
+(`Tie.Registry.readers_atomic`, `tombstone_atomic`), and `concurrent_readers_linearizable_this_tree` is the full
+statement for this tree; the `…_false` theorems are about the shapes before the fixes. -/
 
 theorem unregister_is_two_sections (db : DB) (p : Nat) (t c : Name) (hc : c ≠ []) :
     unregisterDB db p ⟨t, c⟩ = unregChanStep2 (unregChanStep1 db t c p).1 t c (unregChanStep1 db t c p).2 := by
@@ -476,8 +478,8 @@ theorem concurrent_schedules_linearizable_fixed : concurrent_schedules_lineariza
     · left; intro k; rw [h]
     · right; intro k; rw [h]
 
-/-- FALSE on the tree as it is: the schedule `create₁ delete₁ delete₂ create₂` from the empty registry leaves the
-topic without the channel created with it (and REGISTER has the same window, above). -/
+/-- FALSE for the section lists BEFORE F21 (0d24920): the schedule `create₁ delete₁ delete₂ create₂` from the empty
+registry leaves the topic without the channel created with it (and REGISTER has the same window, above). -/
 theorem concurrent_schedules_linearizable_unfixed_false : ¬ concurrent_schedules_linearizable false := by
   intro h
   have := (h [] 1 [116] [99] (by decide) (by decide)).2
@@ -525,8 +527,8 @@ def concurrent_nodes_linearizable (readersAtomic : Bool) : Prop :=
       ∃ k, k ≤ ws.length ∧
         runSecsO (db, NodesObs.init) s = (runSecs db ws, nodesDB (runSecs db (ws.take k)))
 
-/-- FALSE for the three sections of `doLookup` as they are in the tree (known finding
-`race:lookup-vs-topic-delete`): topic `t` exists with channel `c` (created together by `/channel/create`);
+/-- FALSE for the three sections of `doLookup` as they were BEFORE F37 (682420a; finding
+`race:lookup-vs-topic-delete`, fixed): topic `t` exists with channel `c` (created together by `/channel/create`);
 schedule `lookup₁ (topic found) · /topic/delete · lookup₂ (no channels) · lookup₃`: the answer is
 `200 channels: []`, but before the deletion the answer is `200 channels: [c]` and after it `404`. -/
 theorem concurrent_lookup_delete_linearizable_false : ¬ concurrent_lookup_linearizable false := by
@@ -559,7 +561,7 @@ theorem concurrent_lookup_one_writer_fixed (db : DB) (w : Section) (t : Name) :
   | 0, _ => left; rfl
   | 1, _ => right; rfl
 
-/-- FALSE for the sections of `doNodes` as they are in the tree (known finding `race:nodes-vs-topic-delete`): nodes 1
+/-- FALSE for the sections of `doNodes` as they were BEFORE F37 (finding `race:nodes-vs-topic-delete`, fixed): nodes 1
 and 3, both registered for topic `t`; one client issues `/topic/delete?topic=t`, `REGISTER t` (node 1), `REGISTER t`
 (node 3). Schedule: clients · delete · topics(1) = [] · flags(1) · REGISTER 1 · REGISTER 3 · topics(3) = [t] · flags(3):
 `/nodes` lists `t` for node 3 but not for node 1; the states of the serial order are {1,3}, {}, {1}, {1,3}. -/
@@ -586,10 +588,9 @@ theorem concurrent_nodes_linearizable_fixed : concurrent_nodes_linearizable true
   exact Nsq.Proofs.RegistrySched.atomic_reader_sees_prefix ws nodesDB db NodesObs.init s
     (by simpa [nodesSecs] using hs)
 
-/-- THIS tree: the readers are linearizable exactly when the regenerated facts say they are one critical section
-(`Nsq.Tie.Registry.readersAtomic`, computed; `readers_shape` accepts the tree's shape and the F37 shape only). On the
-tree as it is `readersAtomic = false`: both statements are false (findings replayed on every run); with F37 applied
-both hold. -/
+/-- The readers are linearizable exactly when the regenerated facts say they are one critical section
+(`Nsq.Tie.Registry.readersAtomic`, computed). Kept as the characterisation; the statement about THIS tree is
+`concurrent_readers_linearizable_this_tree` below. -/
 theorem concurrent_readers_linearizable_tree :
     (concurrent_lookup_linearizable Nsq.Tie.Registry.readersAtomic ↔ Nsq.Tie.Registry.readersAtomic = true) ∧
     (concurrent_nodes_linearizable Nsq.Tie.Registry.readersAtomic ↔ Nsq.Tie.Registry.readersAtomic = true) := by
@@ -599,6 +600,21 @@ theorem concurrent_readers_linearizable_tree :
            ⟨fun h => absurd h concurrent_nodes_delete_linearizable_false, fun h => by cases h⟩⟩
   · exact ⟨⟨fun _ => rfl, fun _ => concurrent_lookup_linearizable_fixed⟩,
            ⟨fun _ => rfl, fun _ => concurrent_nodes_linearizable_fixed⟩⟩
+
+/-- THIS tree (F37 = /repo 682420a is committed; audit B12): `Tie.Registry.readers_shape` accepts ONLY the
+one-critical-section shape, the facts decide `readersAtomic = true` (`readers_atomic`), and so for every registry, every
+sequence of single-section writers and every schedule the answers of `GET /lookup` and `GET /nodes` are those of one
+state of the writers' serial order. With F37 reverted `readers_atomic` does not hold and this theorem fails with it. -/
+theorem concurrent_readers_linearizable_this_tree :
+    concurrent_lookup_linearizable Nsq.Tie.Registry.readersAtomic ∧
+    concurrent_nodes_linearizable Nsq.Tie.Registry.readersAtomic := by
+  rw [Nsq.Tie.Registry.readers_atomic]
+  exact ⟨concurrent_lookup_linearizable_fixed, concurrent_nodes_linearizable_fixed⟩
+
+/-- non-vacuity: the tree's reader is the one-section list — two schedules against one writer call -/
+example : (interleave [wsec (α := LookupObs) (fun db => deleteTopicDB db [116])]
+    (lookupSecs Nsq.Tie.Registry.readersAtomic [116])).length = 2 := by
+  rw [Nsq.Tie.Registry.readers_atomic]; decide
 
 /-- running alone, both section lists of `GET /lookup` give the sequential answer (`qLookup` is a function of
 `lookupDB`: `Nsq.Proofs.RegistrySched.lookup_answer_of_obs`) -/
